@@ -19,7 +19,7 @@ RULE = ("as_pixels / as_ascii of all three maze kinds compared pixel by pixel (c
 ASSUMPTIONS = ["when start == end the colour of that cell is unspecified (START or END accepted); round trip only claimed for start != end",
                "solutions rendered are valid walks (consecutive cells connected)"]
 NSHARDS = {"quick": 16, "thorough": 16}
-THRESHOLDS = {"quick": {"c10:int8-coordinates": 2000, "c10:roundtrips-under-python-O": 60, 
+THRESHOLDS = {"quick": {"c10:subclass-instances": 300, "c10:int8-coordinates": 2000, "c10:roundtrips-under-python-O": 60, 
     "c10:render:LatticeMaze": 6541, "c10:render:TargetedLatticeMaze": 3000, "c10:render:SolvedMaze": 3000,
     "c10:flags:SolvedMaze:TT": 500, "c10:flags:SolvedMaze:TF": 500, "c10:flags:SolvedMaze:FF": 500,
     "c10:flags:TargetedLatticeMaze:TT": 300, "c10:flags:TargetedLatticeMaze:TF": 300, "c10:flags:TargetedLatticeMaze:FF": 300,
@@ -82,6 +82,9 @@ def check_maze(ctx, kind, cl, s, e, path, case, roundtrip=True):
         if int8:
             ctx.tally("c10:int8-coordinates")
             m = SolvedMaze(connection_list=np.array(cl, dtype=bool), solution=np.array(path, dtype=np.int8))
+        elif _DT[0] % 7 == 1:
+            ctx.tally("c10:subclass-instances")
+            m = lib.solved_subclass(cl, path)
         else:
             m = lib.solved(cl, path)
     st = s if kind != "LatticeMaze" else None
